@@ -59,9 +59,10 @@ type Exec struct {
 	Stubs    map[string]int
 	objID    int
 
-	gs      []*G
-	cur     *G
-	aborted bool
+	gs              []*G
+	cur             *G
+	aborted         bool
+	spawningHarness bool // the goroutine being created is a harness thread (vf.Go)
 
 	rx map[*Value]*rxProg // compiled regexps by *regexp.Regexp pointer
 
@@ -677,7 +678,14 @@ func (ex *Exec) visit(fr *frame, instr ssa.Instruction) int {
 
 	case *ssa.Panic:
 		v := fr.get(instr.X)
-		panic(&goPanic{V: v, Msg: describe(v)})
+		gp := &goPanic{V: v, Msg: describe(v)}
+		// a recovered run-time error that is passed on with panic(r) is still a run-time error
+		if ifc, ok := v.(Iface); ok {
+			if str, ok := ifc.V.(string); ok && strings.HasPrefix(str, "runtime error: ") {
+				gp.Runtime, gp.Msg = true, str
+			}
+		}
+		panic(gp)
 
 	case *ssa.Send:
 		ex.chanSend(fr, fr.get(instr.Chan).(*Chan), fr.get(instr.X))
